@@ -195,7 +195,7 @@ def run_dagger(m, cls, build):
     return run
 
 
-def check_daggers(ctx, modules=None, rule="R02.4"):
+def check_daggers(ctx, modules=None, rule="R02.4", kinds=None):
     m = ctx.model
     n_cls = 0
     for c in m.concrete_boxes():
@@ -256,6 +256,8 @@ def check_daggers(ctx, modules=None, rule="R02.4"):
             raise AnalysisError("%s.dagger outside the recognised idioms: %s" % (c.q, e))
         if cases == 0:
             raise AnalysisError("%s: no generic instance could be constructed" % c.q)
+        if kinds is not None:
+            bad = {k: v for k, v in bad.items() if k.split(":")[0] in kinds}
         if bad:
             for what, (label, oracle, msg) in sorted(bad.items()):
                 ctx.ob(rule, "%s.dagger:%s" % (c.q, what), False, found=msg, required="binds, swaps dom/cod, and is involutive on name/dom/cod/data/dagger flag/mixedness", mod=r[0].mod,
